@@ -47,6 +47,23 @@ type subject struct {
 	muts   int  // mutating operations applied
 	fresh  bool // mutated (or used as operand) since its last full verification
 	enums  int
+	q      *quietState
+}
+
+// quietState: while left > 0 the harness makes no observing call (Len, Contains,
+// Iter, ...) on any object; only the operations themselves run and their own
+// results are compared. Observation is not free of side effects in every
+// implementation (a lazily recomputed cardinality, say), so sequences in which
+// several operations pass unobserved are part of the quantifier.
+type quietState struct{ left int }
+
+func (s *subject) deferred() bool {
+	if s.q != nil && s.q.left > 0 {
+		s.fresh = true
+		s.c.Add("observations_deferred", 1)
+		return true
+	}
+	return false
 }
 
 func newSubject(c *ev.Case, k kind, name string) *subject {
@@ -223,6 +240,9 @@ func (s *subject) rawContains(x uint) bool {
 }
 
 func (s *subject) lenOK(ctx string) bool {
+	if s.deferred() {
+		return true
+	}
 	var n int
 	if !s.guard("Len", func() {
 		switch s.k {
@@ -342,6 +362,9 @@ func (s *subject) remove(x uint) bool {
 }
 
 func (s *subject) contains(x uint) bool {
+	if s.deferred() {
+		return true
+	}
 	want := s.has(x)
 	var got bool
 	if !s.guard("Contains", func() { got = s.rawContains(x) }) {
@@ -751,6 +774,9 @@ func (s *subject) verify(ctx string) bool {
 	if s.c.Failed() {
 		return false
 	}
+	if s.deferred() {
+		return true
+	}
 	s.fresh = false
 	s.c.Logf("  verify %s: Len, Iter/Range/All sequences, Contains(0..%d) against %d members", s.name, s.hi+130, len(s.m))
 	return s.lenOK(ctx) && s.enumerate(ctx) && s.sweep(ctx)
@@ -763,6 +789,9 @@ func (s *subject) verifyLite(ctx string) bool {
 	c := s.c
 	if c.Failed() {
 		return false
+	}
+	if s.deferred() {
+		return true
 	}
 	if !s.lenOK(ctx) {
 		return false
@@ -952,7 +981,7 @@ func (s *subject) clone(name string) *subject {
 	}) {
 		return nil
 	}
-	n := &subject{c: s.c, name: name, k: kBitmap, bm: &bm, m: copyModel(s.m), dirty: true, hi: s.hi}
+	n := &subject{c: s.c, name: name, k: kBitmap, bm: &bm, m: copyModel(s.m), dirty: true, hi: s.hi, q: s.q}
 	s.c.Logf("%s := %s.Clone() (%d members)", name, s.name, len(s.m))
 	s.c.Add("clones", 1)
 	if len(s.m) > 0 {
